@@ -197,10 +197,11 @@ def check_sorted(pt, orules, oglobals, prefix, probs, path=()):
     return ranks
 
 
-def prefix_word_rules(prefix):
+def prefix_word_rules(prefix, kind="neg"):
     """part N: a patching rulebook with a head that merely BEGINS with the vendor's negation word ('node' for 'no',
-    'undoer' for 'undo') and ordering rulebooks that rank it"""
-    w = {"no": "node", "undo": "undoer"}[prefix]
+    'undoer' for 'undo') - or, kind="exit", with the vendor's block-exit word ('exit-map' for 'exit', 'quitter' for
+    'quit'; IOS has such commands: exit-peer-policy, exit-vrf) - and ordering rulebooks that rank it"""
+    w = {"no": "node", "undo": "undoer"}[prefix] if kind == "neg" else {"no": "exit-map", "undo": "quitter"}[prefix]
     rules = [Rule(w + " *"), Rule("b *"), Rule("c *")]
     orders = [[ORule("b"), ORule(w), ORule("c")], [ORule("c"), ORule("b"), ORule(w)], [ORule(w), ORule("c")],
               [ORule("c"), ORule("%s %s" % (prefix, w), order_reverse=True), ORule("b")], [ORule("b"), ORule(w + " 1"), ORule(w + " 2")]]
@@ -211,6 +212,8 @@ def judge_p(vendor, orules, old, new, report, rules=None):
     prefix = VENDOR_PREFIX[vendor]
     otxt = otext(orules)
     case = {"part": "P" if rules is None else "N", "vendor": vendor, "ordering": [r.to_json() for r in orules], "old": old, "new": new}
+    if rules is not None:
+        case["patching"] = [r.to_json() for r in rules]
     try:
         pt = patch_for(vendor, otxt, old, new, rules)
         bk = (vendor, rules is None, repr(old), repr(new))
@@ -246,7 +249,7 @@ def judge_p(vendor, orules, old, new, report, rules=None):
 def run_n(block, ctx):
     from checks.c01_converge import pick_universe
     vendor = block["vendor"]
-    rules, orders = prefix_word_rules(VENDOR_PREFIX[vendor])
+    rules, orders = prefix_word_rules(VENDOR_PREFIX[vendor], block.get("kind", "neg"))
     _cache["rulesN:" + vendor] = rules
     U, _ = pick_universe(refrb.top_level(rules), 40)
     orules = orders[block["i"]]
@@ -359,7 +362,15 @@ def order_rows(vendor):
     # foreign rows (no rule of any shipped .order file mentions them), plain and beginning with the vendor's negation
     # word, and the negated form of the first ordered row
     neg = reverse_word(vendor)
-    return rows[:3] + ["zz 1", "zy", neg + " zz 1", neg + " zy"] + ([neg + " " + rows[0]] if rows else [])
+    # ... and a foreign row that merely begins with the vendor's block-exit word (IOS: exit-peer-policy, exit-vrf)
+    ex = exit_word(vendor)
+    return rows[:3] + ["zz 1", "zy", neg + " zz 1", neg + " zy"] + ([neg + " " + rows[0]] if rows else []) + ([ex + "-zx"] if ex else [])
+
+
+def exit_word(vendor):
+    from annet.vendors import registry_connector
+    reg = registry_connector.get()
+    return (reg[vendor].exit if vendor in reg else "") or ""
 
 
 def reverse_word(vendor):
@@ -392,13 +403,14 @@ def judge_c(vendor, forest, report):
     if again != got:
         report({"kind": "order_config-not-idempotent", "vendor": vendor}, case, "once=%r twice=%r" % (got, again))
     neg = reverse_word(vendor) + " z"
+    exz = (exit_word(vendor) + "-z") if exit_word(vendor) else "z"
 
     def levels(a, b):
         yield [r for r, _ in a], [r for r, _ in b]
         for r, ch in a:
             yield from levels(ch, next((c2 for r2, c2 in b if r2 == r), []))
     for rows_in, rows_out in levels(forest, got):
-        for what, pred in (("plain", lambda r: r.startswith("z")), ("negated", lambda r: r.startswith(neg))):
+        for what, pred in (("plain", lambda r: r.startswith("z") or r.startswith(exz)), ("negated", lambda r: r.startswith(neg))):
             if [r for r in rows_in if pred(r)] != [r for r in rows_out if pred(r)]:
                 report({"kind": "unmentioned-rows-reordered", "vendor": vendor, "shape": "two %s rows swapped" % what}, case,
                        "in=%r out=%r" % (forest, got))
@@ -620,6 +632,7 @@ def blocks(tier, seed):
     for v in VENDOR_PREFIX:
         for i in range(5):
             out.append({"part": "N", "vendor": v, "i": i})
+            out.append({"part": "N", "vendor": v, "i": i, "kind": "exit"})
     for i in range(16):
         out.append({"part": "L", "i": i, "of": 16})
     for v in env.ALL_VENDORS:
@@ -647,7 +660,7 @@ def replay(case):
         judge_p(case["vendor"], [ORule.from_json(d) for d in case["ordering"]], case["old"], case["new"], rep)
     elif case["part"] == "N":
         judge_p(case["vendor"], [ORule.from_json(d) for d in case["ordering"]], case["old"], case["new"], rep,
-                prefix_word_rules(VENDOR_PREFIX[case["vendor"]])[0])
+                [Rule.from_json(d) for d in case["patching"]] if "patching" in case else prefix_word_rules(VENDOR_PREFIX[case["vendor"]])[0])
     elif case["part"] == "C":
         judge_c(case["vendor"], case["forest"], rep)
     elif case["part"] == "T":
